@@ -913,7 +913,20 @@ int main(int argc, char **argv)
 {
     if (argc != 5)
 	die("usage: creds_exec <script> <out.ndjson> <scratch root> <credential directory>");
-    FILE *in = fopen(argv[1], "r");
+    /* the script is read into memory first: a forked child (op "nsf") must not share a file offset with its parent */
+    FILE *in = NULL;
+    {
+	FILE *f0 = fopen(argv[1], "r");
+	if (f0 != NULL) {
+	    fseek(f0, 0, SEEK_END);
+	    long sz = ftell(f0);
+	    fseek(f0, 0, SEEK_SET);
+	    char *mem = malloc((size_t)sz + 1);
+	    if (mem != NULL && fread(mem, 1, (size_t)sz, f0) == (size_t)sz)
+		in = fmemopen(mem, (size_t)sz, "r");
+	    fclose(f0);
+	}
+    }
     if (in == NULL)
 	die("cannot read %s", argv[1]);
     out = fopen(argv[2], "w");
